@@ -454,6 +454,67 @@ func corrC17(r *Run) {
 			}
 		}
 	}
+	// ---- 4a'. long texts (a block of 9..40 runes repeated up to 300..1500 runes): the step from characters to whole texts
+	// (the encoders work character by character, ISO-2022-JP as the three-state machine) also for texts far beyond 40 runes
+	for _, cs := range charsetList {
+		a := alph[cs.dc]
+		for k, nk := 0, r.N(1, 4); k < nk; k++ {
+			block := genText(r, a, 31, false)
+			for len(block) < 9 {
+				block = append(block, genText(r, a, 9, false)...)
+			}
+			reps := (300 + r.Rng.Intn(1200)) / len(block)
+			var text []rune
+			for i := 0; i < reps; i++ {
+				text = append(text, block...)
+			}
+			txt := fmt.Sprintf("(List.concat (List.repeat %s %d%%nat))", coqRunes(block), reps)
+			sx := string(text)
+			in := fmt.Sprintf("encode %d %s", byte(cs.dc), hex.EncodeToString([]byte(sx)))
+			out, ok, pan := implEncode(cs.dc, sx)
+			r.Count(in, true, cs.name+" long text")
+			if pan {
+				r.Fail("text/"+cs.name+"/encoder-panic", "encoder panicked", in, "panic", "octets or an error")
+			}
+			directTextCheck(r, cs, in, text, out, ok)
+			r.Case(clip(in, 70), fmt.Sprintf("same_out (encode_dc %d %s) %s", byte(cs.dc), txt, coqOutBytes(out, ok, pan)))
+			if ok {
+				d, dok, dpan := implDecode(cs.dc, out)
+				if dpan || !dok {
+					r.Fail("text/"+cs.name+"/decoder-fails", "decoder failed on encoder output", in, fmt.Sprintf("ok=%v panic=%v", dok, dpan), "the text")
+				} else if cs.dc != coding.ASCIICoding && d != sx {
+					r.Fail("roundtrip/"+cs.name+"/text", "an accepted text does not survive encode then decode", in, fmt.Sprintf("%d octets, decoded %d runes", len(out), len([]rune(d))), "the text")
+				}
+				want := coqOutRunes(d, dok, dpan)
+				if dok && d == sx {
+					want = "(Ok " + txt + ")"
+				}
+				r.Case(clip("decode of "+in, 70), fmt.Sprintf("same_out (decode_dc %d %s) %s", byte(cs.dc), coqHex(out), want))
+			}
+		}
+	}
+	// observations outside the statement (audit B3): which coding the message-class / message-waiting values are given
+	{
+		tab := dcClosure()
+		note := func(lo, hi int) string {
+			cl := tab[lo]
+			same := true
+			for b := lo; b <= hi; b++ {
+				same = same && tab[b] == cl
+			}
+			what := "no encoder"
+			if cl.enc != clsNone {
+				what = fmt.Sprintf("the codec of data_coding %d", cl.enc)
+			}
+			if !same {
+				what = "mixed"
+			}
+			return fmt.Sprintf("0x%02X-0x%02X: %s", lo, hi, what)
+		}
+		r.Notes = append(r.Notes, "observation outside C17 (which coding an alias value is given is not specified by the property): "+
+			note(0xC0, 0xCF)+" (GSM 03.38: discard message, default alphabet); "+note(0xD0, 0xDF)+"; "+note(0xE0, 0xEF)+"; "+
+			note(0xF0, 0xF3)+"; "+note(0xF4, 0xF7)+" (GSM 03.38: 8-bit data); "+note(0xF8, 0xFB)+"; "+note(0xFC, 0xFF))
+	}
 	// ---- 4b. every entry point that encodes: Encoder (above), ShortMessage.Compose, ComposeMultipartShortMessage
 	for _, t := range []string{"Łódź", "Dvořák", "Ґ", "ְשלום", "日本©", "가¢", "Ā", "naïve café", "Жук", "שלום", "日本語", "안녕", "\U0001F48A", "€uro", "a\u0085b"} {
 		entryPoints(r, t, []coding.DataCoding{coding.Latin1Coding, coding.CyrillicCoding, coding.HebrewCoding, coding.UCS2Coding, coding.ShiftJISCoding, coding.EUCKRCoding}, "corpus")
